@@ -1,6 +1,14 @@
 package props
 
 import (
+	"fmt"
+	"go/token"
+	"go/types"
+	"sort"
+	"strings"
+
+	"golang.org/x/tools/go/ssa"
+
 	"scverif/an"
 )
 
@@ -8,16 +16,336 @@ func init() {
 	register(&Prop{
 		ID:    "C11",
 		Title: "Concurrent use of the public API is free of data races",
-		Explanation: "Decides structural necessary conditions of race freedom: R11.1 every access (outside constructors) to a field that is written under its struct's sibling mutex somewhere, or that is in the hand-confirmed guarded table, holds that mutex (any mode for reads, exclusive for writes), with lock sets propagated to unexported helpers and synchronous callbacks. Does NOT decide race freedom in general: no points-to analysis, no happens-before graph, callbacks supplied by callers are not analysed.",
+		Explanation: "Decides structural necessary conditions of race freedom: R11.1 (guarded fields, plus the annotated entry config.rng: every use of the collection's random source happens under one lock held exclusively); R11.2 published messages are immutable (E2, shared with C07) and no plain append extends a published slice; R11.3 in pkg/wrap the close error is written before serverSend is closed and every read is protected by a lock every write holds, or happens on the server side, or is dominated by a receive that observed serverSend closed. R11.1 detail: every access (outside constructors) to a field that is written under its struct's sibling mutex somewhere, or that is in the hand-confirmed guarded table, holds that mutex (any mode for reads, exclusive for writes), with lock sets propagated to unexported helpers and synchronous callbacks. Does NOT decide race freedom in general: no points-to analysis, no happens-before graph, callbacks supplied by callers are not analysed.",
 		Assumptions: []string{"locks are identified by access path (no aliasing of mutexes)", "sort.Slice/sort.Search and friends invoke their callback synchronously"},
 		Run:         runC11,
+		Controls: []Control{
+			{Name: "get-without-rlock", File: "pkg/resource/value.go", Old: "\tr.mu.RLock()\n\tdefer r.mu.RUnlock()\n\treturn req.FilterClone(r.value)", New: "\treturn req.FilterClone(r.value)", Expect: "R11.1"},
+			{Name: "router-has-without-lock", File: "pkg/router/router.go", Old: "\tr.mu.RLock()\n\tdefer r.mu.RUnlock()\n\t_, exists := r.registry[name]", New: "\t_, exists := r.registry[name]", Expect: "R11.1"},
+			{Name: "collect-without-lock", File: "internal/minibus/bus.go", Old: "\tb.listenerM.Lock()\n\tdefer b.listenerM.Unlock()\n\n\tvar activeListeners", New: "\tvar activeListeners", Expect: "R11.1"},
+			{Name: "write-under-rlock", File: "pkg/router/router.go", Old: "\tr.mu.Lock()\n\told := r.registry[name]\n\tr.registry[name] = client\n\tr.mu.Unlock()", New: "\tr.mu.RLock()\n\told := r.registry[name]\n\tr.registry[name] = client\n\tr.mu.RUnlock()", Expect: "R11.1"},
+			{Name: "revert-F9-rng-unguarded", File: "pkg/resource/collection.go", Old: "\tc.rngMu.Lock()\n\tdefer c.rngMu.Unlock()\n", New: "", Expect: "config.rng"},
+			{Name: "revert-F10-closeerr-unguarded", File: "pkg/wrap/stream.go", Old: "\ts.closeErrM.Lock()\n\tdefer s.closeErrM.Unlock()\n", New: "", Expect: "R11.3"},
+			{Name: "waste-read-without-lock", File: "pkg/trait/wastepb/model.go", Old: "func (m *Model) GetWasteRecordCount() int {\n\tm.mu.Lock()\n\tdefer m.mu.Unlock()\n", New: "func (m *Model) GetWasteRecordCount() int {\n", Expect: "R11.1"},
+			{Name: "lock-for-reads", Silent: true, File: "pkg/router/router.go", Old: "\tr.mu.RLock()\n\tdefer r.mu.RUnlock()\n\t_, exists := r.registry[name]", New: "\tr.mu.Lock()\n\tdefer r.mu.Unlock()\n\t_, exists := r.registry[name]"},
+		},
 	})
 }
 
 func runC11(c *an.Ctx) {
 	g := analyseGuarded(c)
-	for k, why := range g.Guarded {
-		c.Note("guarded field %s.%s (%s)", k.Struct, k.Field, why)
+	for _, k := range sortedGuarded(g) {
+		c.Note("guarded field %s.%s (%s)", k.Struct, k.Field, g.Guarded[k])
+	}
+	// the confirmed table must be found (G3)
+	for s, fs := range confirmedGuarded {
+		for f := range fs {
+			found := false
+			for _, a := range g.Accesses {
+				if a.Struct == s && a.Field == f {
+					found = true
+				}
+			}
+			if !found {
+				c.Unk("R11.1", "guarded table|"+s+"."+f, 0, "a hand-confirmed guarded field is no longer accessed anywhere (renamed or removed): the lock discipline cannot be checked")
+			}
+		}
 	}
 	reportGuarded(c, "R11.1", g, func(string) bool { return true })
+	r111rng(c)
+	runE2(c, "R11.2", nil)
+	r112append(c)
+	r113(c)
+	c.Min("R11.1", 40)
+	c.Min("R11.2", 60)
+	c.Min("R11.3", 4)
+}
+
+func sortedGuarded(g *guardedResult) []guardedField {
+	var ks []guardedField
+	for k := range g.Guarded {
+		ks = append(ks, k)
+	}
+	sort.Slice(ks, func(i, j int) bool {
+		if ks[i].Struct != ks[j].Struct {
+			return ks[i].Struct < ks[j].Struct
+		}
+		return ks[i].Field < ks[j].Field
+	})
+	return ks
+}
+
+// r111rng: the collection's source of randomness (config.rng, an io.Reader that is a
+// *math/rand.Rand by default and is not safe for concurrent use; collection.go documents
+// "mu protects byId and rng") is only used while a lock is held exclusively, the same lock
+// at every use.
+func r111rng(c *an.Ctx) {
+	const rule = "R11.1"
+	w := lockWorld(c)
+	type use struct {
+		in   ssa.Instruction
+		fn   *ssa.Function
+		held an.LockSet
+	}
+	var uses []use
+	for _, fn := range c.Prog.FuncsIn("pkg/resource") {
+		an.Instrs(fn, func(in ssa.Instruction) {
+			u, ok := in.(*ssa.UnOp)
+			if !ok {
+				return
+			}
+			fa, ok := u.X.(*ssa.FieldAddr)
+			if !ok {
+				return
+			}
+			_, sn, f, _ := an.FieldOf(fa)
+			if f != "rng" || !strings.HasSuffix(sn, "/pkg/resource.config") {
+				return
+			}
+			for _, r := range an.Referrers(u) {
+				switch x := r.(type) {
+				case ssa.CallInstruction:
+					uses = append(uses, use{x, fn, w.At(x)})
+				}
+			}
+		})
+	}
+	if len(uses) == 0 {
+		c.Unk(rule, "pkg/resource.config.rng|uses", 0, "no use of the collection's rng found")
+		return
+	}
+	common := map[string]bool{}
+	for i, u := range uses {
+		cur := map[string]bool{}
+		for k, m := range u.held {
+			if m >= an.WLock {
+				cur[k] = true
+			}
+		}
+		if i == 0 {
+			common = cur
+		} else {
+			for k := range common {
+				if !cur[k] {
+					delete(common, k)
+				}
+			}
+		}
+	}
+	for _, u := range uses {
+		c.SawFunc(an.FuncName(u.fn))
+		c.Check(len(common) > 0, rule, an.FuncName(u.fn)+"|use of config.rng under an exclusive lock", u.in.Pos(), "lock set "+u.held.String(),
+			"the shared random source is read with lock set "+u.held.String()+" (entry: "+w.Why[u.fn]+"): no lock is held exclusively at every use, so two concurrent id generations (both under the read lock) call rng.Read concurrently - a data race on *math/rand.Rand")
+	}
+}
+
+// r112append: a plain append onto a published slice writes into spare capacity that other
+// goroutines appending to the same published slice share.
+func r112append(c *an.Ctx) {
+	const rule = "R11.2"
+	w := publishedWorld(c)
+	for _, fn := range e2Scope(c) {
+		_, taint := w.Analyse(fn)
+		an.Instrs(fn, func(in ssa.Instruction) {
+			call, ok := in.(*ssa.Call)
+			if !ok || an.CalleeName(call) != "builtin append" {
+				return
+			}
+			if taint[call.Call.Args[0]]&an.TSelf == 0 {
+				return
+			}
+			if _, isSub := call.Call.Args[0].(*ssa.Slice); isSub {
+				return // reported as a write by R07.1 / R11.2 already
+			}
+			c.Bad(rule, an.FuncName(fn)+"|append onto a published slice", call.Pos(), "append(published slice, …) writes into the spare capacity of a backing array shared with the stored message: two goroutines doing so concurrently (interceptors run outside the lock) race on the same slot")
+		})
+	}
+}
+
+// r113: hand-off of closeErr in wrap/stream.go.
+func r113(c *an.Ctx) {
+	const rule = "R11.3"
+	w := lockWorld(c)
+	isField := func(v ssa.Value, f string) bool {
+		_, sn, fld, ok := an.FieldOf(v)
+		return ok && fld == f && strings.HasSuffix(sn, "/pkg/wrap.ClientServerStream")
+	}
+	type access struct {
+		in    ssa.Instruction
+		fn    *ssa.Function
+		write bool
+	}
+	var accs []access
+	for _, fn := range c.Prog.FuncsIn("pkg/wrap") {
+		an.Instrs(fn, func(in ssa.Instruction) {
+			switch x := in.(type) {
+			case *ssa.Store:
+				if isField(x.Addr, "closeErr") {
+					accs = append(accs, access{in, fn, true})
+				}
+			case *ssa.UnOp:
+				if x.Op == token.MUL && isField(x.X, "closeErr") {
+					accs = append(accs, access{in, fn, false})
+				}
+			}
+		})
+	}
+	var writes []access
+	for _, a := range accs {
+		if a.write {
+			writes = append(writes, a)
+		}
+	}
+	if len(writes) == 0 {
+		c.Unk(rule, "pkg/wrap.ClientServerStream.closeErr|writes", 0, "no write of closeErr found")
+		return
+	}
+	// locks held exclusively at every write
+	writeLocks := map[string]bool{}
+	for i, wr := range writes {
+		cur := map[string]bool{}
+		for k, m := range w.At(wr.in) {
+			if m >= an.WLock {
+				cur[lockField(k)] = true
+			}
+		}
+		if i == 0 {
+			writeLocks = cur
+		} else {
+			for k := range writeLocks {
+				if !cur[k] {
+					delete(writeLocks, k)
+				}
+			}
+		}
+		// order: the write precedes close(serverSend) and the cancel
+		if wr.fn.Name() == "Close" {
+			okOrder := false
+			an.Instrs(wr.fn, func(in ssa.Instruction) {
+				if cl, ok := in.(*ssa.Call); ok && an.CalleeName(cl) == "builtin close" && isField(cl.Call.Args[0], "serverSend") {
+					if an.Dominates(wr.in, cl) && !an.Reaches(cl, wr.in) {
+						okOrder = true
+					}
+				}
+			})
+			c.Check(okOrder, rule, "(*pkg/wrap.ClientServerStream).Close|closeErr is set before serverSend is closed", wr.in.Pos(), "", "closeErr is assigned after close(serverSend): a receiver that observes the closed channel reads a stale error")
+		}
+	}
+	serverSide := func(fn *ssa.Function) bool {
+		if fn.Signature.Recv() == nil {
+			return false
+		}
+		n := an.NamedTypeName(fn.Signature.Recv().Type())
+		return strings.HasSuffix(n, "/pkg/wrap.serverStream") || fn.Name() == "Close"
+	}
+	guardedByClosedServerSend := func(at ssa.Instruction) bool {
+		for _, e := range an.GuardingEdges(at) {
+			if e.Branch {
+				// the edge must be the "!ok" one; conditions are `ok` (false edge) or `!ok` (true edge)
+				if u, isNot := e.If.Cond.(*ssa.UnOp); !isNot || u.Op != token.NOT {
+					continue
+				}
+			}
+			var okVal ssa.Value = e.If.Cond
+			if u, isNot := okVal.(*ssa.UnOp); isNot && u.Op == token.NOT {
+				okVal = u.X
+				if !e.Branch {
+					continue
+				}
+			} else if e.Branch {
+				continue
+			}
+			ex, isEx := okVal.(*ssa.Extract)
+			if !isEx || ex.Index != 1 {
+				continue
+			}
+			switch t := ex.Tuple.(type) {
+			case *ssa.Select:
+				for _, st := range t.States {
+					if st.Dir == types.RecvOnly && isField(st.Chan, "serverSend") {
+						return true
+					}
+				}
+			case *ssa.UnOp:
+				if t.Op == token.ARROW && isField(t.X, "serverSend") {
+					return true
+				}
+			}
+		}
+		return false
+	}
+	var check func(read ssa.Instruction, fn *ssa.Function, depth int) (bool, string)
+	check = func(read ssa.Instruction, fn *ssa.Function, depth int) (bool, string) {
+		// (a) a lock shared with every write
+		for k, m := range w.At(read) {
+			if m >= an.RLock && writeLocks[lockField(k)] {
+				return true, "protected by " + lockField(k) + ", which every write holds"
+			}
+		}
+		// (c) server side: Close is called by the goroutine that runs the handler
+		if serverSide(fn) {
+			return true, "server-side method (same goroutine as Close)"
+		}
+		// (b) dominated by a receive that observed serverSend closed
+		if guardedByClosedServerSend(read) {
+			return true, "dominated by a receive that observed serverSend closed"
+		}
+		// helper: all its call sites must qualify
+		if depth < 2 && fn.Object() != nil && !fn.Object().Exported() {
+			n := 0
+			allOK := true
+			why := ""
+			for _, caller := range c.Prog.FuncsIn("pkg/wrap") {
+				for _, call := range an.CallsTo(caller, an.FuncQName(fn)) {
+					n++
+					ok, y := check(call, caller, depth+1)
+					if !ok {
+						allOK = false
+						why = "called from " + an.FuncName(caller) + " at " + c.Prog.Rel(call.Pos()) + ": " + y
+					}
+				}
+			}
+			if n > 0 && allOK {
+				return true, fmt.Sprintf("helper: all %d call sites qualify", n)
+			}
+			if n > 0 {
+				return false, why
+			}
+		}
+		return false, "read without a lock shared with the write and not ordered after observing serverSend closed (a parent-context cancellation wakes this path while the handler goroutine is still writing closeErr in Close)"
+	}
+	for _, a := range accs {
+		if a.write {
+			continue
+		}
+		// report per (function -> call site) to name the offending caller
+		if a.fn.Object() != nil && !a.fn.Object().Exported() && !serverSide(a.fn) {
+			reported := false
+			for _, caller := range c.Prog.FuncsIn("pkg/wrap") {
+				for _, call := range an.CallsTo(caller, an.FuncQName(a.fn)) {
+					ok, why := check(call, caller, 1)
+					// a lock inside the helper covers all callers
+					if hk, _ := check(a.in, a.fn, 5); hk {
+						ok, why = true, "protected inside "+an.FuncName(a.fn)
+					}
+					reported = true
+					c.SawFunc(an.FuncName(caller))
+					c.Check(ok, rule, an.FuncName(caller)+"|read of closeErr is ordered after its write", call.Pos(), why, why)
+				}
+			}
+			if reported {
+				continue
+			}
+		}
+		ok, why := check(a.in, a.fn, 0)
+		c.SawFunc(an.FuncName(a.fn))
+		c.Check(ok, rule, an.FuncName(a.fn)+"|read of closeErr is ordered after its write", a.in.Pos(), why, why)
+	}
+}
+
+func lockField(path string) string {
+	if i := strings.LastIndex(path, "."); i >= 0 {
+		return path[i+1:]
+	}
+	return path
 }
